@@ -10,6 +10,7 @@ import (
 	"time"
 
 	"github.com/csgura/fp"
+	"github.com/csgura/fp/test/verifjson"
 	"verif/harness/sim"
 )
 
@@ -91,6 +92,10 @@ const c15Direct = -2
 type c15ctx struct {
 	r    *sim.Run
 	name string
+	// freshFF: the fault-free class decodes into the zero value although the target is
+	// "unchanged on error"-strict (generated @fp.Json structs decode through their Mutable
+	// twin, into which encoding/json merges field by field like into any plain struct)
+	freshFF bool
 }
 
 // decode runs one read of the store into a copy of pre; returns the target afterwards.
@@ -209,7 +214,7 @@ func c15Run[T any](c *c15ctx, v, pre, otherVal T, plain any, hasPlain bool, isOp
 	// ---- fault-free class
 	for _, dec := range []bool{false, true} {
 		ffPre := pre
-		if !isOptTarget {
+		if !isOptTarget || c.freshFF {
 			// encoding/json merges into pre-populated maps and keeps absent struct fields:
 			// plain containers are decoded into their zero value
 			var zero T
@@ -297,7 +302,7 @@ func c15Opt[T any](r *sim.Run, defined bool, v T) fp.Option[T] {
 
 func execC15(r *sim.Run) {
 	r.Case = "record"
-	kind := r.Choose(16, "type")
+	kind := r.Choose(20, "type")
 	def := r.Choose(4, "defined") != 0
 	preDef := r.Choose(2, "preDefined") == 1
 	i1, i2, i3 := r.Choose(2001, "i1")-1000, r.Choose(7, "i2"), r.Choose(1<<20, "i3")
@@ -391,6 +396,8 @@ func execC15(r *sim.Run) {
 		c.name = "Option[Unit]"
 		// Some(Unit) encodes as null like None: excluded by the property; only None round-trips
 		c15Run(c, fp.None[fp.Unit](), c15Opt(r, preDef, fp.Unit{}), fp.None[fp.Unit](), nil, false, true)
+	case 16, 17, 18, 19:
+		c15Generated(c, kind, s1, s2, i1, i3, preDef)
 	default:
 		c.name = "*Option[int] inside struct pointer"
 		type holder struct {
@@ -398,6 +405,71 @@ func execC15(r *sim.Run) {
 		}
 		o := c15Opt(r, true, n1)
 		c15Run(c, holder{P: &o}, holder{}, holder{}, nil, false, false)
+	}
+}
+
+// c15Generated: the @fp.Json value types committed in the repository (generated by gombok), reached through the
+// tag-guarded alias package test/verifjson. Besides the round trip and the fault classes, the emitted bytes must be
+// exactly what encoding/json emits for the public Mutable twin.
+func c15Generated(c *c15ctx, kind int, s1, s2 string, i1, i3 int, preDef bool) {
+	r := c.r
+	c.freshFF = true
+	ts := func(k int) time.Time {
+		switch k % 5 {
+		case 0:
+			return time.Time{}
+		case 1:
+			return time.Unix(int64(i3)*977, int64(i3%1000)*1000003).UTC()
+		case 2:
+			return time.Unix(1<<31+int64(i1), 0).UTC()
+		case 3:
+			return time.Unix(-int64(i3), 999999999).UTC()
+		}
+		return time.Unix(int64(i1), 500).UTC()
+	}
+	s3 := c15Strings[r.Choose(len(c15Strings), "s3")]
+	mkWorld := func(a, b string, k int) verifjson.World {
+		return verifjson.WorldMutable{Message: a, Timestamp: ts(k), Pub: b}.AsImmutable()
+	}
+	var preW verifjson.World
+	var preA verifjson.Address
+	var preG verifjson.Greeting
+	if preDef {
+		preW = mkWorld("pre", "prePub", 4)
+		preA = verifjson.AddressMutable{Country: "pre", City: "preCity", Street: "preStreet"}.AsImmutable()
+		preG = verifjson.GreetingMutable{Hello: preW, Language: "pre"}.AsImmutable()
+	}
+	switch kind {
+	case 16:
+		c.name = "@fp.Json World"
+		v := mkWorld(s1, s2, i3)
+		c15Run(c, v, preW, mkWorld("o", "", 1), any(v.AsMutable()), true, true)
+	case 17:
+		c.name = "@fp.Json Address"
+		v := verifjson.AddressMutable{Country: s1, City: s2, Street: s3}.AsImmutable()
+		c15Run(c, v, preA, verifjson.AddressMutable{City: "o"}.AsImmutable(), any(v.AsMutable()), true, true)
+	case 18:
+		c.name = "@fp.Json Greeting (nested @fp.Json World)"
+		v := verifjson.GreetingMutable{Hello: mkWorld(s1, s2, i3), Language: s3}.AsImmutable()
+		c15Run(c, v, preG, verifjson.GreetingMutable{Language: "o"}.AsImmutable(), any(v.AsMutable()), true, true)
+	default:
+		c.name = "[]@fp.Json Address / map[string]World"
+		c.freshFF = false
+		if i3%2 == 0 {
+			v := []verifjson.Address{verifjson.AddressMutable{Country: s1}.AsImmutable(), verifjson.AddressMutable{City: s2, Street: s3}.AsImmutable()}[:1+i1&1]
+			plain := make([]verifjson.AddressMutable, len(v))
+			for i := range v {
+				plain[i] = v[i].AsMutable()
+			}
+			c15Run(c, v, []verifjson.Address{preA}, []verifjson.Address{}, any(plain), true, false)
+		} else {
+			v := map[string]verifjson.World{"k": mkWorld(s1, s2, i3), s3: mkWorld("", "", 0)}
+			plain := map[string]verifjson.WorldMutable{}
+			for k, w := range v {
+				plain[k] = w.AsMutable()
+			}
+			c15Run(c, v, map[string]verifjson.World{"pre": preW}, map[string]verifjson.World{}, any(plain), true, false)
+		}
 	}
 }
 
